@@ -40,7 +40,10 @@ def judge(specs, links, order, link_order, cache=True):
                     else:
                         src = next(l[0] for l in links if l[1] == (n, i))
                         smeta = comps[src[0]].outputs[src[1]].info.meta
+                        own = {"owner": n, "_FillValue": -float(ord(n[0]))} if _m == "decl_tag" else {}
                         for k, v in c.inputs[i].info.meta.items():
+                            if k in own:  # metadata the consumer declared itself (the order-independence of what happens to it is C05's business)
+                                continue
                             if k not in smeta or smeta[k] != v:
                                 bad.append(("input_info_differs_from_exchanged", f"{n}.{i} has {k}={v!r}, source {src} has {smeta.get(k)!r}"))
                     d = c.connector.in_data.get(i)
@@ -284,6 +287,20 @@ def trunk_shapes():
                     yield specs, links
 
 
+def tagged_shapes():
+    """fan-out to consumers that carry extra metadata of their own (direct and behind a shared pass-through adapter)"""
+    for om in ("decl", "open", "arg"):
+        for ia, ib in (("decl_tag", "decl_tag"), ("decl_tag", "decl"), ("decl", "decl_tag")):
+            for trunk in (False, True):
+                for third in (False, True):
+                    specs = [("X", [], [("o", om, "const")], 0), ("Y", [("i", ia)], [], 0), ("Z", [("i", ib)], [], 0)]
+                    links = [(("X", "o"), ("Y", "i")) + (("t",) if trunk else ()), (("X", "o"), ("Z", "i")) + (("t",) if trunk else ())]
+                    if third:
+                        specs.append(("W", [("i", "decl_tag")], [], 0))
+                        links.append((("X", "o"), ("W", "i")))
+                    yield specs, links
+
+
 def staged_shapes():
     """two-stage feedback: source -> staged -> partner -> staged (second input), where the staged component can push its initial data
     late (only after one input was pulled) while it still waits for the other input"""
@@ -330,6 +347,7 @@ def run(tier, seed, agg):
     shapes += list(stuck_plus_arg_shapes())
     shapes += list(trunk_shapes())
     shapes += list(staged_shapes())
+    shapes += list(tagged_shapes())
     cases = [dict(shapes=shapes[i : i + 40], lo_mode="two" if q else "all") for i in range(0, len(shapes), 40)]
     # the same with ConnectHelper(cache=False): the harness components hand in everything they can on every call, so nothing may depend on the cache
     nocache = list(single_slot_shapes(2, lambda n: [(0, 0), (1, 0)])) + list(two_slot_shapes()) + list(stuck_plus_arg_shapes())
